@@ -48,6 +48,8 @@ and parse_line () : line =
   | "H" -> LHidden (tok_str (next ()))
   | "FR" -> let nm = tok_str (next ()) in let leg = next () = "1" in LField (nm, KRaw leg)
   | "FB" -> let nm = tok_str (next ()) in let inp = tok_str (next ()) in LField (nm, KBit inp)
+  | "FL" -> let nm = tok_str (next ()) in let inp = tok_str (next ()) in let tb = tok_str (next ()) in
+            LField (nm, KLinterp (inp, tb))
   | "A" -> let nm = tok_str (next ()) in let tg = tok_str (next ()) in LAlias (nm, tg)
   | "I" ->
       let d = next () in
@@ -68,12 +70,13 @@ let show_frag (f : frag) : string =
     (String.concat "/" (List.map string_of_str f.f_dir))
 
 let show_entry (frags : frag list) (resolved : (n list * n list option) list) (e : entry) : string =
+  let d = try (List.find (fun f -> int_of_nat f.f_index = int_of_nat e.e_frag) frags).f_dir with Not_found -> [] in
+  let inDir (fb : n list) = "=" ^ String.concat "/" (List.map string_of_str d @ [string_of_str fb]) in
   let k, x, r = match e.e_kind with
     | EIndex -> "I", "=", "-"
-    | ERaw fb ->
-        let d = try (List.find (fun f -> int_of_nat f.f_index = int_of_nat e.e_frag) frags).f_dir with Not_found -> [] in
-        "R", "=" ^ String.concat "/" (List.map string_of_str d @ [string_of_str fb]), "-"
+    | ERaw (fb, leg) -> "R", (inDir fb ^ (if leg then " ty=1" else " ty=2")), "-"
     | EBit i -> "B", show_str i, "-"
+    | ELinterp (i, tb) -> "L", show_str i ^ " tab=" ^ inDir tb, "-"
     | EAlias t -> "A", show_str t,
         (match List.assoc_opt e.e_name resolved with Some (Some x) -> show_str x | _ -> "~") in
   Printf.sprintf "E %s frag=%d kind=%s hid=%d x=%s res=%s" (show_str e.e_name) (int_of_nat e.e_frag) k
